@@ -34,6 +34,22 @@ def tree_has(repo, what):
     return False
 
 
+def check_floors(pid, run):
+    """a rule that generated far fewer obligations than on the confirmed tree, with nothing reported, has lost its instances"""
+    path = os.path.join(VERIF, "floors.json")
+    if not os.path.isfile(path) or os.environ.get("PYSCSI_SA_NO_FLOORS"):
+        return
+    with open(path) as f:
+        floors = json.load(f).get(pid, {})
+    known = set(k for k in run.known)
+    if any((run.pid, v["rule"], v["construct"]) not in known for v in run.violations):
+        return          # something is reported: the run is not a silent pass
+    low = ["%s: %d < %d" % (r, run.rules.get(r, 0), n) for r, n in sorted(floors.items()) if run.rules.get(r, 0) < n]
+    run.extra["rule_floors"] = {"checked": len(floors), "below": low}
+    if low:
+        raise AnalysisError("rule-coverage-floor", "; ".join(low[:6]))
+
+
 def run_property(pid, tier="quick", repo="/repo", quiet=False, evidence=True, out_dir=None):
     """returns (exit_code, Run)"""
     run = Run(pid, tier=tier, repo=repo, quiet=quiet, out_dir=out_dir,
@@ -43,6 +59,7 @@ def run_property(pid, tier="quick", repo="/repo", quiet=False, evidence=True, ou
         from .model import Program
         prog = Program(repo)
         mod.check(prog, run)
+        check_floors(pid, run)
         # the same check under the interpreter flags that change what the library's own statements do -- only when the tree
         # contains such statements (an assert, a warnings.warn, a bytes/str comparison): `python -O`, `-W error`, `-bb`
         modes = []
